@@ -64,6 +64,19 @@ def same_nesting(impl, model):
             all(isinstance(row, list) and len(row) == len(mrow) and all(mat_eq(k, m) for k, m in zip(row, mrow)) for row, mrow in zip(impl, model["ops"])))
 
 
+def _scale_obj(obj, sc):
+    """the same representation with every operator multiplied by sc"""
+    if isinstance(obj, (list, tuple)):
+        return type(obj)(_scale_obj(o, sc) for o in obj)
+    return np.asarray(obj) * sc
+
+
+def _same_arrays(a, b):
+    if isinstance(a, (list, tuple)) or isinstance(b, (list, tuple)):
+        return isinstance(a, (list, tuple)) and isinstance(b, (list, tuple)) and len(a) == len(b) and all(_same_arrays(x, y) for x, y in zip(a, b))
+    return np.array_equal(np.asarray(a), np.asarray(b))
+
+
 def check_dual(ctx, din, dout, r, cp, cplx, seed=None):
     seed = int(ctx.rng.integers(1 << 62)) if seed is None else int(seed)
     rng = np.random.default_rng(seed)
@@ -120,6 +133,15 @@ def check_dual(ctx, din, dout, r, cp, cplx, seed=None):
         if not all(np.array_equal(a, b) for a, b in zip(flat_in, snap)):
             ok = False
             ctx.violation(f"dual_channel[{name}]: caller's arrays were modified", info)
+        # the dual is linear in the operators: the same family scaled by a power of two (exact in floating point; entries of size 1e-9 and
+        # 1e+6) must give the dual scaled by the same factor, entry for entry (dual_adjoint_kraus holds for maps of any norm)
+        if seed % 3 == 0:
+            for kexp in (-30, 20):
+                Ds = call(dual_channel, _scale_obj(obj, 2.0 ** kexp))
+                ctx.case(dict(desc, scale_exp=kexp), nontriv, f"dual/scaled/2^{kexp}")
+                if Ds[0] != "ok" or not _same_arrays(Ds[1], _scale_obj(D, 2.0 ** kexp)):
+                    ok = False
+                    ctx.violation(f"dual_channel[{name}]: operators scaled by 2^{kexp} do not give the dual scaled by 2^{kexp}", dict(info, scale_exp=kexp, theorem="dual_adjoint_kraus (linear in the operators)"))
         # double dual acts as (indeed: is) the original
         DD = call(dual_channel, D)
         if DD[0] != "ok":
@@ -226,6 +248,13 @@ def check_dual(ctx, din, dout, r, cp, cplx, seed=None):
         if not np.array_equal(J, snap):
             ok = False
             ctx.violation("dual_channel[choi]: caller's array was modified", info)
+        if seed % 3 == 0:
+            for kexp in (-30, 20):     # linear in J: a Choi matrix of tiny / large norm gives the dual scaled by the same power of two
+                Js = call(dual_channel, J * 2.0 ** kexp, dims)
+                ctx.case(dict(desc, scale_exp=kexp), nontriv, f"dual/choi/scaled/2^{kexp}")
+                if Js[0] != "ok" or not np.array_equal(np.asarray(Js[1]), np.asarray(JD) * 2.0 ** kexp):
+                    ok = False
+                    ctx.violation(f"dual_channel[choi/{df}]: Choi matrix scaled by 2^{kexp} does not give the dual scaled by 2^{kexp}", dict(info, scale_exp=kexp, theorem="dual_adjoint_choi (linear in J)"))
         # double dual with the swapped dimensions returns the original matrix
         back_dims = {"mat": [[do0, di0], [do1, di1]], "array": np.array([[do0, di0], [do1, di1]]), "vec": [do0, di0], "int": di0, "none": None}[df]
         JJ = call(dual_channel, JD, back_dims)
